@@ -50,7 +50,9 @@ def checker (prop : String) : Option Checker :=
   | "C17" => some (stateless C17.check)
   | "C06" => some (stateless C06.check)
   | "C07" => some (stateless C07.check)
-  | "C08" => some (stateless C08.check)
+  | "C08" => some ⟨Sys.St, {}, fun st n l =>
+      -- token-level cases, and (JSON lines) PFD provisioning on a running agent
+      if l.startsWith "{" then (sysChecker ["C08", "C01"]).step st n l else (st, [C08.check n l])⟩
   | "C18" => some (stateless C18.check)
   | "C19" => some (stateless C19.check)
   | "C20" => some (stateless C20.check)
